@@ -1,76 +1,93 @@
-(* C08 — list markers follow Word's counting rules and render numbers
-   correctly.  Statements only; proofs in proofs/NumFmtFacts.v and
-   proofs/BulletsFacts.v. *)
-From Coq Require Import List NArith ZArith Sorting.Sorted.
-From D2P Require Import Str Err TableTypes Tables Fmt NumFmt Bullets NumFmtFacts BulletsFacts PropGlue.
+(* C08 — list markers follow Word's counting rules and render numbers correctly.
+   Statements only (copied from the lemma libraries); every proof is a bare
+   `exact`; see the cited files in coq/proofs for the proofs. *)
+From Coq Require Import List NArith ZArith Bool Arith Sorting.Sorted Sorting.Permutation.
+From D2P Require Import Str Err Xml TableTypes Tables Fmt NumFmt Bullets Merge Collector Walk NumFmtFacts BulletsFacts PropGlue ShapeFacts FrameFacts SeqFacts.
 Import ListNotations.
 Open Scope N_scope.
 
-(* letters: for EVERY positive ordinal (unbounded) the rendering exists, is
-   made of a..z, and decodes (bijective base 26) to the ordinal ... *)
-Theorem C08_letters_correct : forall p s, lower_letter (Zpos p) = Ok s ->
+(* letters: for EVERY positive ordinal (unbounded) the rendering exists, is made of a..z, and decodes (bijective base 26) to the ordinal ... *)
+Theorem C08_letters_correct :
+  forall p s, lower_letter (Zpos p) = Ok s ->
   decode26 s = Npos p /\ Forall (fun c => 97 <= c /\ c <= 122) s /\ s <> [].
 Proof. exact letters_decode. Qed.
 Print Assumptions C08_letters_correct.
 
-Theorem C08_letters_total : forall p, exists s, lower_letter (Zpos p) = Ok s.
+(* C08_letters_total *)
+Theorem C08_letters_total :
+  forall p, exists s, lower_letter (Zpos p) = Ok s.
 Proof. exact letters_total. Qed.
 Print Assumptions C08_letters_total.
 
 (* ... distinct and order preserving (a < b < ... < z < aa < ab ...) *)
-Theorem C08_letters_monotone : forall p q s t,
-  lower_letter (Zpos p) = Ok s -> lower_letter (Zpos q) = Ok t -> (p < q)%positive ->
-  shortlex_lt s t.
+Theorem C08_letters_monotone :
+  forall p q s t,
+  lower_letter (Zpos p) = Ok s -> lower_letter (Zpos q) = Ok t ->
+  (p < q)%positive -> shortlex_lt s t.
 Proof. exact letters_monotone. Qed.
 Print Assumptions C08_letters_monotone.
 
-Theorem C08_letters_injective : forall p q s,
+(* C08_letters_injective *)
+Theorem C08_letters_injective :
+  forall p q s,
   lower_letter (Zpos p) = Ok s -> lower_letter (Zpos q) = Ok s -> p = q.
 Proof. exact letters_injective. Qed.
 Print Assumptions C08_letters_injective.
 
-(* Roman numerals: for all 1 <= n <= 3999 (the bound is part of the statement;
-   finite domain decided by vm_compute) the ROMAN_SUBS rewriting of the source
-   yields the standard numeral, whose value is n *)
-Theorem C08_roman_correct : forall z, (1 <= z <= 3999)%Z ->
-  lower_roman z = Ok (roman_ref (Z.to_N z)) /\ roman_value (roman_ref (Z.to_N z)) = Z.to_N z.
+(* Roman numerals: for all 1 <= n <= 3999 (the bound is part of the statement; finite domain decided by vm_compute) the ROMAN_SUBS rewriting of the source yields the standard numeral, whose value is n *)
+Theorem C08_roman_correct :
+  forall z, (1 <= z <= 3999)%Z ->
+  lower_roman z = Ok (roman_ref (Z.to_N z)) /\
+  roman_value (roman_ref (Z.to_N z)) = Z.to_N z.
 Proof. exact roman_correct. Qed.
 Print Assumptions C08_roman_correct.
 
-Theorem C08_roman_injective : forall a b s, (1 <= a <= 3999)%Z -> (1 <= b <= 3999)%Z ->
+(* C08_roman_injective *)
+Theorem C08_roman_injective :
+  forall a b s,
+  (1 <= a <= 3999)%Z -> (1 <= b <= 3999)%Z ->
   lower_roman a = Ok s -> lower_roman b = Ok s -> a = b.
 Proof. exact roman_injective. Qed.
 Print Assumptions C08_roman_injective.
 
 (* ordinals below one are rejected by all four renderers *)
-Theorem C08_reject : forall z, (z < 1)%Z ->
+Theorem C08_reject :
+  forall z, (z < 1)%Z ->
   lower_letter z = Err ValueError /\ upper_letter z = Err ValueError /\
   lower_roman z = Err ValueError /\ upper_roman z = Err ValueError.
 Proof. exact letters_reject. Qed.
 Print Assumptions C08_reject.
 
-Theorem C08_upper_letter : forall z, upper_letter z = (s <- lower_letter z ;; Ok (map upper_chr s)).
+(* C08_upper_letter *)
+Theorem C08_upper_letter :
+  forall z,
+  upper_letter z = (s <- lower_letter z ;; Ok (map upper_chr s)).
 Proof. exact upper_letter_is_map. Qed.
 Print Assumptions C08_upper_letter.
 
-Theorem C08_upper_roman : forall z, upper_roman z = (s <- lower_roman z ;; Ok (map upper_chr s)).
+(* C08_upper_roman *)
+Theorem C08_upper_roman :
+  forall z,
+  upper_roman z = (s <- lower_roman z ;; Ok (map upper_chr s)).
 Proof. exact upper_roman_is_map. Qed.
 Print Assumptions C08_upper_roman.
 
-Theorem C08_decimal : forall z, decimal z = Ok (str_of_Z z) /\ int_of_str (str_of_Z z) = Some z.
+(* C08_decimal *)
+Theorem C08_decimal :
+  forall z, decimal z = Ok (str_of_Z z) /\ int_of_str (str_of_Z z) = Some z.
 Proof. exact c08_decimal. Qed.
 Print Assumptions C08_decimal.
 
-(* counting rule, for EVERY history of list and non-list paragraphs: the
-   counter of (list, level) equals the number of earlier items of the same
-   list and level since the latest item of that list with a smaller level *)
-Theorem C08_counter_spec : forall tbl h numId ilvl,
+(* counting rule, for EVERY history of list and non-list paragraphs: the counter of (list, level) equals the number of earlier items of the same list and level since the latest item of that list with a smaller level *)
+Theorem C08_counter_spec :
+  forall tbl h numId ilvl,
   count_of (run_hist tbl h) numId ilvl = spec_rev (items_rev h []) numId ilvl.
 Proof. exact counters_spec. Qed.
 Print Assumptions C08_counter_spec.
 
 (* the ordinal given to the next item: start - 1 + 1 + that count *)
-Theorem C08_ordinal : forall tbl h n l cs' num,
+Theorem C08_ordinal :
+  forall tbl h n l cs' num,
   get_par_number tbl (run_hist tbl h) (Some n, Some l) = (cs', num) ->
   num = Some (Z.of_N (1 + spec_rev (items_rev h []) n l) + get_start_value_zero_based tbl n l)%Z
   /\ cs' = run_hist tbl (h ++ [Some (n, l)]).
@@ -78,22 +95,24 @@ Proof. exact par_number_spec. Qed.
 Print Assumptions C08_ordinal.
 
 (* other lists and non-list paragraphs do not interfere *)
-Theorem C08_no_interference : forall tbl h1 h2 numId ilvl,
+Theorem C08_no_interference :
+  forall tbl h1 h2 numId ilvl,
   (forall i, In (Some i) h2 -> fst i <> numId) ->
   count_of (run_hist tbl (h1 ++ h2)) numId ilvl = count_of (run_hist tbl h1) numId ilvl.
 Proof. exact non_items_do_not_interfere. Qed.
 Print Assumptions C08_no_interference.
 
-(* list_position: the list id with the counters of its open levels in
-   ascending level order (keys stay sorted, counts >= 1) *)
-Theorem C08_position_sorted : forall tbl h numId d,
+(* list_position: the list id with the counters of its open levels in ascending level order (keys stay sorted, counts >= 1) *)
+Theorem C08_position_sorted :
+  forall tbl h numId d,
   dict_get numId (run_hist tbl h) = Some d ->
   keys_sorted d /\ Forall (fun kv => 1 <= snd kv) d.
 Proof. exact keys_sorted_invariant. Qed.
 Print Assumptions C08_position_sorted.
 
 (* marker layout: ilvl tabs, then -- or ordinal followed by ), then a tab *)
-Theorem C08_marker_layout : forall tbl n l num s,
+Theorem C08_marker_layout :
+  forall tbl n l num s,
   get_bullet tbl (Some n, Some l) (Some num) = Ok s ->
   exists lvl body, int_of_str l = Some lvl
     /\ s = repeat_str s_tab (Z.to_nat lvl) ++ body ++ s_tab
@@ -101,7 +120,27 @@ Theorem C08_marker_layout : forall tbl n l num s,
 Proof. exact bullet_layout. Qed.
 Print Assumptions C08_marker_layout.
 
-Theorem C08_not_a_list_item : forall tbl fmt num,
+(* C08_not_a_list_item *)
+Theorem C08_not_a_list_item :
+  forall tbl fmt num,
   (fst fmt = None \/ snd fmt = None \/ num = None) -> get_bullet tbl fmt num = Ok [].
 Proof. exact bullet_not_list. Qed.
 Print Assumptions C08_not_a_list_item.
+
+(* tie to the walk: after any run of paragraphs the collector's list counters are exactly the history fold over their (numId, ilvl) - non-list paragraphs are no-ops *)
+Theorem C08_counters_along_the_walk :
+  forall v ks path i s s',
+  forallb simple_par ks = true -> Inv s -> c_open s = [] ->
+  kids_loop v path ks i s = Ok s' ->
+  c_counters s' = fold_left (step (to_numtable v)) (map par_fmt ks) (c_counters s).
+Proof. exact counters_of_simple_pars. Qed.
+Print Assumptions C08_counters_along_the_walk.
+
+(* hence, counted separately per content part (a fresh collector starts from empty counters), the counter of (list, level) after the paragraphs is the counting rule's value *)
+Theorem C08_counter_of_item_in_part :
+  forall v ks path i s s' numId ilvl,
+  forallb simple_par ks = true -> Inv s -> c_open s = [] -> c_counters s = [] ->
+  kids_loop v path ks i s = Ok s' ->
+  count_of (c_counters s') numId ilvl = spec_rev (items_rev (map par_fmt ks) []) numId ilvl.
+Proof. exact counter_of_nth_item. Qed.
+Print Assumptions C08_counter_of_item_in_part.
